@@ -576,6 +576,39 @@ pub fn families() -> Vec<Box<dyn Family>> {
                     out.nontrivial(&(&a, &b, &evs));
                 }
                 check_case(&Driver::Script(&evs), "hand-driven script", &a, &b, &s3, out);
+                // the same script with ZERO-LENGTH events sprinkled in (a caller-written differ may emit them): the
+                // forwarding wrappers must pass on every call except finish, whatever its lengths
+                if idx % 3 == 0 {
+                    let mut evs0: Vec<Ev> = Vec::new();
+                    let (mut o, mut n) = (0usize, 0usize);
+                    for e in &evs {
+                        if rng.chance(1, 3) && *e != Ev::Fin {
+                            evs0.push(match rng.below(3) {
+                                0 => Ev::Eq(o, n, 0),
+                                1 => Ev::Del(o, 0, n),
+                                _ => Ev::Ins(o, n, 0),
+                            });
+                        }
+                        match *e {
+                            Ev::Eq(_, _, l) => {
+                                o += l;
+                                n += l;
+                            }
+                            Ev::Del(_, l, _) => o += l,
+                            Ev::Ins(_, _, l) => n += l,
+                            Ev::Rep(_, ol, _, nl) => {
+                                o += ol;
+                                n += nl;
+                            }
+                            Ev::Fin => {}
+                        }
+                        evs0.push(*e);
+                    }
+                    if evs0.len() > evs.len() {
+                        out.count("scripts_with_zero_length_events");
+                        check_case(&Driver::Script(&evs0), "hand-driven script with zero-length events", &a, &b, &[0, 4, 5, 10], out);
+                    }
+                }
             },
         ),
     ]
